@@ -131,6 +131,8 @@ func c11(tier string) []*explore.Scenario {
 		}
 	}
 	out = append(out, opInWriteAll("C11", 1)...)
+	// finer granularity (a scheduling point after every Unlock as well) on the small core scenarios
+	out = append(out, fineGrained(c11One(abandon{"handler-returns", 2, 0, false, false, false}, 64, 0, 1), c11One(abandon{"caller-cancels", 2, 1, false, false, false}, 64, 0, 1))...)
 	return out
 }
 
